@@ -1,38 +1,226 @@
-"""C17 native harness: real pydoctor.sphinx functions against the sidecar contracts."""
+"""C17 native harness: real pydoctor.sphinx functions against the sidecar contracts (bounded, labelled so)."""
 from __future__ import annotations
 import itertools
 import random
-from replay.native import check_pure, spec_env, load_contracts
+import zlib
+from replay.native import check_pure, check_method, spec_env, load_contracts, validate_axioms
+from replay import fixtures
 
 REG = load_contracts('C17')
 ENV = spec_env('specs.c17')
+F = 'pydoctor/sphinx.py'
+SMALL = ['a', '1', '', 'py:x', '-']
+TOKS = ['a', 'b.c', '1', '-1', 'py:function', 'x', '', '+3', '0x1', '7', '-', 'std:label', '$', 'py:class', 'u.html#x']
+SPECIAL = ['\t', 'a\tb 1 c d', 'a b 1', 'a b 1 c', 'a b 1 c d', 'a b c 1 d e', 'mod.C 0.m 0 py:method -1 u -',
+           'a  b 1 c d', 'ü py:class 1 u -', '1 2 3 4 5', 'a b ١ c d', 'a b 1_0 c d', 'a b  1  c d', '  1', 'a py:x 1 u -']
 
 
 def _line_cases(tier, seed):
-    toks = ['a', 'b.c', '1', '-1', 'py:function', 'x y'.split()[0], '', '+3', '0x1', ' 7'.strip(), '-', 'std:label', '$']
     maxn = 5 if tier == 'quick' else 6
-    small = ['a', '1', '', 'py:x', '-']
     for n in range(0, maxn + 1):
-        for combo in itertools.product(small, repeat=n):
+        for combo in itertools.product(SMALL, repeat=n):
             yield {'line': ' '.join(combo)}
     rnd = random.Random(seed)
     for _ in range(2000 if tier == 'quick' else 20000):
-        n = rnd.randint(0, 8)
-        yield {'line': ' '.join(rnd.choice(toks) for _ in range(n))}
-    for s in ['\t', 'a\tb 1 c d', 'a b 1', 'a b 1 c', 'a b 1 c d', 'a b c 1 d e', 'mod.C 0.m 0 py:method -1 u -',
-              'a  b 1 c d', 'ü py:class 1 u -', '1 2 3 4 5', 'a b ١ c d', 'a b 1_0 c d', 'a b  1  c d']:
+        yield {'line': ' '.join(rnd.choice(TOKS) for _ in range(rnd.randint(0, 8)))}
+    for s in SPECIAL:
         yield {'line': s}
 
 
 def _check_line(case):
     from pydoctor import sphinx
-    return check_pure(REG.contracts[('pydoctor/sphinx.py', '_parseInventoryLine')], sphinx._parseInventoryLine,
-                      case, ENV)
+    return check_pure(REG.contracts[(F, '_parseInventoryLine')], sphinx._parseInventoryLine, case, ENV)
+
+
+class _Log:
+    def __init__(self):
+        self.errors = 0
+
+    def __call__(self, where, message, thresh=0):
+        if thresh < 0:
+            self.errors += 1
+
+
+def _inv():
+    from pydoctor import sphinx
+    log = _Log()
+    return sphinx.SphinxInventory(logger=log), log
+
+
+def _payload_cases(tier, seed):
+    lines = ['a py:x 1 u -', 'b std:label 1 u -', 'broken', 'a b 1', '', 'c py:y -1 v$ d d', 'a py:x 2 w -', 'x y z', '1 2 3']
+    maxn = 3 if tier == 'quick' else 4
+    for n in range(0, maxn + 1):
+        for combo in itertools.product(lines, repeat=n):
+            yield {'base_url': 'http://h/b', 'payload': '\n'.join(combo)}
+    rnd = random.Random(seed + 1)
+    for _ in range(300 if tier == 'quick' else 5000):
+        ls = [' '.join(rnd.choice(TOKS) for _ in range(rnd.randint(0, 7))) for _ in range(rnd.randint(0, 6))]
+        yield {'base_url': 'u', 'payload': rnd.choice(['\n', '\r\n', '\n\n']).join(ls)}
+
+
+def _check_payload(case):
+    inv, log = _inv()
+    return check_method(REG.contracts[(F, 'SphinxInventory._parseInventory')], inv, '_parseInventory', case, ENV,
+                        ghosts={'errors': lambda: log.errors})
+
+
+def _bytes_cases(tier, seed):
+    good = zlib.compress(b'a py:x 1 u -\nb py:y 1 v -\n')
+    hdr = b'# Sphinx inventory version 2\n# Project: p\n# Version: 1\n# The rest is compressed\n'
+    base = [b'', b'#', b'# x', b'\n', hdr, hdr + good, good, hdr + good[:-3], hdr + good[3:], hdr + b'garbage',
+            hdr + zlib.compress(b'\xff\xfe bad utf8\n'), b'#a\n#b\n' + good, b'\n' + good, hdr + zlib.compress(b''),
+            b'# only comments\n# more\n']
+    for b in base:
+        yield {'base_url': 'http://h', 'data': list(b)}
+    rnd = random.Random(seed + 2)
+    full = hdr + good
+    for _ in range(200 if tier == 'quick' else 3000):
+        b = bytearray(full)
+        for _ in range(rnd.randint(1, 4)):
+            op = rnd.randint(0, 2)
+            if op == 0 and b:
+                b[rnd.randrange(len(b))] = rnd.randrange(256)
+            elif op == 1 and b:
+                del b[rnd.randrange(len(b)):][: rnd.randint(1, 5)]
+            else:
+                b.insert(rnd.randrange(len(b) + 1), rnd.randrange(256))
+        yield {'base_url': 'http://h', 'data': list(bytes(b))}
+
+
+def _check_getpayload(case):
+    inv, log = _inv()
+    kw = {'base_url': case['base_url'], 'data': bytes(case['data'])}
+    return check_method(REG.contracts[(F, 'SphinxInventory._getPayload')], inv, '_getPayload', kw, ENV,
+                        ghosts={'errors': lambda: log.errors})
+
+
+class _Cache:
+    def __init__(self, data):
+        self.data = data
+
+    def get(self, url):
+        return self.data
+
+
+def _update_cases(tier, seed):
+    for c in _bytes_cases(tier, seed):
+        for url in ('http://h/objects.inv', 'nourl'):
+            yield {'url': url, 'data': c['data']}
+    yield {'url': 'http://h/objects.inv', 'data': None}
+
+
+def _check_update(case):
+    inv, log = _inv()
+    data = None if case['data'] is None else bytes(case['data'])
+    return check_method(REG.contracts[(F, 'SphinxInventory.update')], inv, 'update',
+                        {'cache': _Cache(data), 'url': case['url']}, ENV, ghosts={'errors': lambda: log.errors})
+
+
+# ---- writer: real model objects -----------------------------------------------------------------------
+_SYS = {}
+
+
+def _system(k):
+    if k not in _SYS:
+        _SYS[k] = fixtures.build_system(fixtures.PROJECT_A, fixtures.PRIVACY_SETS[k])
+    return _SYS[k]
+
+
+def _obj_cases(tier, seed):
+    for k in range(len(fixtures.PRIVACY_SETS)):
+        for name in sorted(_system(k).allobjects):
+            yield {'privacy': k, 'obj': name}
+
+
+def _writer():
+    from pydoctor import sphinx
+    log = _Log()
+    return sphinx.SphinxInventoryWriter(logger=log, project_name='p', project_version='1'), log
+
+
+def _check_genline(case):
+    w, log = _writer()
+    o = _system(case['privacy']).allobjects[case['obj']]
+    return check_method(REG.contracts[(F, 'SphinxInventoryWriter._generateLine')], w, '_generateLine', {'obj': o}, ENV,
+                        ghosts={'errors': lambda: log.errors})
+
+
+def _subject_cases(tier, seed):
+    for k in range(len(fixtures.PRIVACY_SETS)):
+        s = _system(k)
+        yield {'privacy': k, 'subjects': [o.fullName() for o in s.rootobjects]}
+        for name in sorted(s.allobjects):
+            yield {'privacy': k, 'subjects': [name]}
+
+
+def _check_gencontent(case):
+    w, log = _writer()
+    s = _system(case['privacy'])
+    subs = [s.allobjects[n] for n in case['subjects']]
+    return check_method(REG.contracts[(F, 'SphinxInventoryWriter._generateContent')], w, '_generateContent',
+                        {'subjects': subs}, ENV, ghosts={'errors': lambda: log.errors})
+
+
+def _roundtrip_cases(tier, seed):
+    for k in range(len(fixtures.PRIVACY_SETS)):
+        yield {'privacy': k}
+
+
+def _check_roundtrip(case):
+    """end to end on real objects: generate -> parse; exactly one entry per visible object reachable from the
+    roots, mapping its qualified name to its url (statement of C17, for pydoctor's own reader)"""
+    from pydoctor import sphinx
+    s = _system(case['privacy'])
+    w, _ = _writer()
+    content = w._generateContent(s.rootobjects).decode('utf-8')
+    inv, log = _inv()
+    got = inv._parseInventory('B', content)
+
+    def walk(o):
+        if not o.isVisible:
+            return
+        yield o
+        for c in o.contents.values():
+            yield from walk(c)
+    want = {}
+    for r in s.rootobjects:
+        for o in walk(r):
+            want[o.fullName()] = ('B', o.url)
+    if got != want or log.errors:
+        missing = sorted(set(want) - set(got))
+        extra = sorted(set(got) - set(want))
+        wrong = sorted(k for k in want if k in got and got[k] != want[k])
+        return {'observed': f'missing={missing[:5]} extra={extra[:5]} wrong={wrong[:5]} errors={log.errors}',
+                'required': 'exactly one entry per visible documented object, name -> (base, url)'}
+    if len(content.splitlines()) != len(want):
+        return {'observed': f'{len(content.splitlines())} lines for {len(want)} visible objects', 'required': 'one line per object'}
+    return None
+
+
+def _axiom_cases(tier, seed):
+    yield {'all': True}
+
+
+def _check_axioms(case):
+    return validate_axioms(REG, ENV, alphabet=['a', ' ', '1', '-', 'p', '_'], maxlen=3 if True else 4)
 
 
 HARNESS = {
-    'pydoctor/sphinx.py:_parseInventoryLine': {
-        'cases': _line_cases, 'check': _check_line,
-        'bound': 'all space-joined token lists of length <= 5 (6 thorough) over 5 tokens + 2000 (20000) random lines over 13 tokens',
-    },
+    f'{F}:_parseInventoryLine': {'cases': _line_cases, 'check': _check_line,
+        'bound': 'all space-joined token lists of length <= 5 (6 thorough) over 5 tokens + 2000 (20000) random lines over 15 tokens'},
+    f'{F}:SphinxInventory._parseInventory': {'cases': _payload_cases, 'check': _check_payload,
+        'bound': 'all payloads of <= 3 (4) lines over 9 line shapes + 300 (5000) random payloads'},
+    f'{F}:SphinxInventory._getPayload': {'cases': _bytes_cases, 'check': _check_getpayload,
+        'bound': '15 hand-picked byte strings + 200 (3000) byte-level mutations of a valid inventory'},
+    f'{F}:SphinxInventory.update': {'cases': _update_cases, 'check': _check_update,
+        'bound': 'the _getPayload byte strings x {valid url, url without slash} + missing data'},
+    f'{F}:SphinxInventoryWriter._generateLine': {'cases': _obj_cases, 'check': _check_genline,
+        'bound': 'every object of fixture project A under 6 privacy rule lists'},
+    f'{F}:SphinxInventoryWriter._generateContent': {'cases': _subject_cases, 'check': _check_gencontent,
+        'bound': 'every object / the root list of fixture project A under 6 privacy rule lists'},
+    'lemma.roundtrip': {'cases': _roundtrip_cases, 'check': _check_roundtrip,
+        'bound': 'fixture project A under 6 privacy rule lists, end to end through writer and reader'},
+    'axioms': {'cases': _axiom_cases, 'check': _check_axioms,
+        'bound': 'every axiom instantiated with all strings of length <= 3 over {a, space, 1, -, p, _}'},
 }
